@@ -213,6 +213,65 @@ func init() {
 				}
 				cases = append(cases, &BCase{ID: fmt.Sprintf("E/split-tags=%03b", v), Cfg: merged, Files: fl, Sessions: []BSession{{Ops: stdOps(opTag("tagged", "w"))}}})
 			}
+			// (F) every decorator word of length <= 3 (thorough 4) over the tags {t, u}: the k-th decorator is attached to
+			// word[k]; sa carries both tags (declared u before t), sb only t, sc only u
+			{
+				maxLen := 3
+				if !w.Env.Quick() {
+					maxLen = 4
+				}
+				fns := []string{"pk.Dec1", "pk2.Dec2", "pk.Dec3", "pk2.Dec1"}
+				var words [][]int
+				var gen func(cur []int)
+				gen = func(cur []int) {
+					if len(cur) > 0 {
+						words = append(words, append([]int{}, cur...))
+					}
+					if len(cur) == maxLen {
+						return
+					}
+					for t := 0; t < 2; t++ {
+						gen(append(cur, t))
+					}
+				}
+				gen(nil)
+				for _, wd := range words {
+					cfg := &Cfg{Meta: stdMeta()}
+					id := ""
+					for k, t := range wd {
+						cfg.Decorators = append(cfg.Decorators, Decorator{Tag: tags[t], Decorator: fns[k], Args: []any{fmt.Sprintf("d%d", k)}})
+						id += tags[t]
+					}
+					cfg.Services = []Service{
+						{Name: "sa", Constructor: P("pk.New1"), Tags: []Tag{{Name: "u"}, {Name: "t", Priority: P(1)}}, Calls: []Call{{Method: "Set1", Args: []any{"own-call"}}}},
+						{Name: "sb", Constructor: P("pk.New2"), Tags: []Tag{{Name: "t"}}},
+						{Name: "sc", Constructor: P("pk.New3"), Tags: []Tag{{Name: "u", Priority: P(2)}}},
+						{Name: "consumer", Constructor: P("pk2.New"), Args: []any{"!tagged t", "!tagged u"}},
+					}
+					cases = append(cases, &BCase{ID: "F/decorator-word=" + id, Cfg: cfg, Sessions: []BSession{{Ops: stdOps()}}})
+				}
+			}
+			// (G) decorators arriving through one pattern whose wildcard spans directories: the files are merged in the
+			// lexical order of their cleaned paths, which is not the order directory-by-directory
+			for gi, dirs := range [][2]string{{"http", "http-admin"}, {"conf", "conf.d"}, {"x", "x+y"}, {"b", "a"}, {"a", "b"}, {"m", "m0"}} {
+				da, db := "conf/"+dirs[0]+"/10.yaml", "conf/"+dirs[1]+"/10.yaml"
+				fa := &Cfg{Decorators: []Decorator{{Tag: "t", Decorator: "pk.Dec1", Args: []any{dirs[0]}}}, Services: []Service{{Name: "sa", Calls: []Call{{Method: "Set1", Args: []any{"from " + dirs[0]}}}}}}
+				fb := &Cfg{Decorators: []Decorator{{Tag: "t", Decorator: "pk2.Dec2", Args: []any{dirs[1]}}}, Services: []Service{{Name: "sa", Calls: []Call{{Method: "Set2", Args: []any{"from " + dirs[1]}}}}}}
+				base := &Cfg{Meta: stdMeta(), Services: []Service{
+					{Name: "sa", Constructor: P("pk.New1"), Tags: []Tag{{Name: "t"}}},
+					{Name: "sb", Constructor: P("pk.New2")}, {Name: "sc", Constructor: P("pk.New3")},
+					{Name: "consumer", Constructor: P("pk2.New"), Args: []any{"!tagged t"}}}}
+				first, second := fa, fb
+				if db < da {
+					first, second = fb, fa
+				}
+				merged := &Cfg{Meta: stdMeta(), Decorators: append(append([]Decorator{}, first.Decorators...), second.Decorators...), Services: []Service{
+					{Name: "sa", Constructor: P("pk.New1"), Tags: []Tag{{Name: "t"}}, Calls: append(append([]Call{}, first.Services[0].Calls...), second.Services[0].Calls...)},
+					{Name: "sb", Constructor: P("pk.New2")}, {Name: "sc", Constructor: P("pk.New3")},
+					{Name: "consumer", Constructor: P("pk2.New"), Args: []any{"!tagged t"}}}}
+				cases = append(cases, &BCase{ID: fmt.Sprintf("G/wildcard-directories=%d", gi), Cfg: merged,
+					Files: []File{{"base.yaml", base.YAML()}, {da, fa.YAML()}, {db, fb.YAML()}}, Patterns: []string{"base.yaml", "conf/*/*.yaml"}, Sessions: []BSession{{Ops: stdOps()}}})
+			}
 			// (D) scopes of carriers
 			scopes := []*string{nil, P("shared"), P("non_shared"), P("contextual")}
 			for a := 0; a < 4; a++ {
